@@ -459,6 +459,15 @@ def _c_lists(chk, tier):
     diff = sp.expand(pr.list_to_expr(B, clmo) - pr.truncate(pr.poisson(Pe, Qe), MD))
     chk.check(diff == 0, "C06.c", f"{PO}::_polynomial_poisson_bracket", f"list-level Poisson bracket differs from {{p,q}} truncated at degree {MD}: {str(diff)[:160]}",
               sample="{p,q} with result degree d1+d2-2")
+    # inputs longer than the truncation degree: {p_(MD+1), q_1} has degree MD and belongs to the result
+    Plong = [pr.generic_arr("e", d, psi, {1: {2}, 4: {3, 30}}.get(d, set())) for d in range(MD + 2)]
+    Ple = pr.list_to_expr(Plong, clmo)
+    for label, A_, B_, Ae, Be in (("long first argument", Plong, Q, Ple, Qe), ("long second argument", Q, Plong, Qe, Ple)):
+        Bl = ip().call_function(PO, "_polynomial_poisson_bracket", [A_, B_, MD, psi, clmo, enc])
+        diff = sp.expand(pr.list_to_expr(Bl, clmo) - pr.truncate(pr.poisson(Ae, Be), MD))
+        chk.check(diff == 0 and len(Bl) == MD + 1, "C06.c", f"{PO}::_polynomial_poisson_bracket[{label}]",
+                  f"with an input that extends beyond the truncation degree the bracket loses terms of degree <= {MD}: {str(diff)[:160]}",
+                  sample=f"{label}: {{p,q}} truncated at {MD} includes {{p_{MD + 1}, q_1}}")
     Pw = mk("c", {0: {0}, 1: {1, 5}})
     Pwe = pr.list_to_expr(Pw, clmo)
     for k in (0, 1, 2, 3):
